@@ -159,6 +159,7 @@ fn cmp_pair(out: &mut String, x: &[u8], y: &[u8], rep: usize) {
     }
 }
 
+#[allow(unused_assignments)]
 fn cmp_pair_inner(out: &mut String, x: &[u8], y: &[u8], rep: usize) {
     let br = bytes_reps(x);
     let mr = mut_reps(x);
